@@ -258,17 +258,74 @@ def check_rerender(ctx, obj, text, wc, hp, origin, inp, tag):
                  'url-safe main-net text', dict(inp, origin=origin, text=text), d, spec_friendly(wc, hp, True, True, False))
 
 
-def check_pair(ctx, wc1, h1, wc2, h2):
-    """== on two addresses vs the model, and the property 'equal => equal hash'."""
+def build_via(via, wc, hp):
+    """an Address for (wc, hp) obtained through route `via`: 'tuple' | 'raw' (parsed raw text) | 'friendly-url?b?t?' (parsed friendly text
+    carrying those flags; only for a 1-byte workchain and a 32-byte id, else the tuple form)."""
     Address = _lib()
-    a, b = Address((wc1, h1)), Address((wc2, h2))
-    ctx.case(('eq', wc1, h1, wc2, h2))
-    e = bool(a == b)
+    if via == 'raw':
+        return Address(spec_raw(wc, hp))
+    if via.startswith('friendly-') and -128 <= wc <= 127 and len(hp) == 32:
+        url, b, t = (via[12] == '1'), (via[14] == '1'), (via[16] == '1')
+        return Address(spec_friendly(wc, hp, url, b, t))
+    return Address((wc, hp))
+
+
+def check_pair(ctx, wc1, h1, wc2, h2, via=('tuple', 'tuple'), tag='pair'):
+    """== / != / hash / set and dict membership on two addresses, judged by the property: a == b iff same workchain and same id bytes
+    (whatever flags / route they came from); equal => equal hash; != is the negation; membership agrees.  Also vs the model."""
+    inp = {'kind': 'pair', 'a': [wc1, h1.hex()], 'b': [wc2, h2.hex()], 'via': list(via), 'class': tag}
+    ctx.case(('eq', wc1, h1, wc2, h2, tuple(via)))
+    same = (wc1, h1) == (wc2, h2)
+    try:
+        a, b = build_via(via[0], wc1, h1), build_via(via[1], wc2, h2)
+        e, e2 = a == b, b == a
+        ne = a != b
+        ha, hb = hash(a), hash(b)
+        in_set = b in {a}
+        in_dict = {a: 1}.get(b) == 1
+        both = len({a, b})
+    except Exception as ex:
+        ctx.fail('eq:raise', f'comparing / hashing two addresses raised {type(ex).__name__}', inp, 'err', f'equal={same}')
+        return
+    if e is not True and e is not False:
+        ctx.fail('eq:not-bool', '== on two addresses is not a bool', inp, repr(e), same)
+        return
     ctx.expect_model(f'addreq {wc1} {hx(h1)} {wc2} {hx(h2)}', f'ok {int(e)}', 'pair')
-    if e != ((wc1, h1) == (wc2, h2)):
-        ctx.fail('eq:wrong', '== differs from equality of (wc, hash)', {'kind': 'pair', 'a': [wc1, h1.hex()], 'b': [wc2, h2.hex()]}, e, not e)
-    if e and hash(a) != hash(b):
-        ctx.fail('eqhash:pair', 'equal addresses hash differently', {'kind': 'pair', 'a': [wc1, h1.hex()], 'b': [wc2, h2.hex()]}, 'unequal', 'equal')
+    if e != same or e2 != same:
+        ctx.fail('eq:wrong', '== differs from equality of (workchain, account id)', inp, f'a==b {e}, b==a {e2}', same)
+    if ne is not (not same):
+        ctx.fail('eq:ne', '!= is not the negation of equality of (workchain, account id)', inp, repr(ne), not same)
+    if (e or same) and ha != hb:
+        ctx.fail('eqhash:pair', 'equal addresses hash differently', inp, f'{ha} / {hb}', 'equal hashes')
+    if in_set != same or in_dict != same or both != (1 if same else 2):
+        ctx.fail('eq:membership', 'set / dict membership of two addresses disagrees with equality of (workchain, account id)', inp,
+                 f'b in {{a}}: {in_set}, {{a: 1}}.get(b): {in_dict}, len({{a, b}}): {both}', f'{same}, {same}, {1 if same else 2}')
+
+
+def pair_cases(ctx):
+    """Round 11 class (harness/gen/packpairs.py): pairs of addresses that COLLIDE UNDER A WRONG PACKING WIDTH - (wc, id) next to
+    (wc + k, id - k * 2^s) for every s in {0, 1, 8, 16, 31, 32, 33, 64, 128, 255, 256} and small k of both signs (exact in the integers and
+    mod 2^256) - plus the one-field neighbours (only the workchain, only one id byte / bit) and the same address through two routes with
+    different flags (tuple / raw text / the 8 friendly variants).  s = 0 is the packing __hash__ uses: those pairs hash equally and must
+    still be unequal."""
+    from ..gen import packpairs as pp
+    rng = ctx.rng
+    routes = ['tuple', 'raw'] + [f'friendly-url{int(u)}b{int(b)}t{int(t)}' for u, b, t in VARIANTS]
+    bases = [(0, pp.collision_base(rng, 256)), (-1, pp.collision_base(rng, 256)), (rng.randrange(-120, 120), pp.collision_base(rng, 256)),
+             (rng.randrange(-120, 120), rng.getrandbits(256)), (rng.choice([127, -128]), pp.collision_base(rng, 256)), (0, 0), (-1, (1 << 256) - 1)]
+    for _ in range(ctx.n(2, 20)):
+        bases.append((rng.randrange(-120, 120), pp.collision_base(rng, 256)))
+    for wc, lo in bases:
+        h = lo.to_bytes(32, 'big')
+        for label, wc2, lo2 in pp.packing_collisions(rng, wc, lo, 256):
+            ctx.count('pairs:packing-' + label.split('k')[0])
+            check_pair(ctx, wc, h, wc2, lo2.to_bytes(32, 'big'), (rng.choice(routes), rng.choice(routes)), 'packing-' + label)
+        for label, wc2, lo2 in pp.field_neighbours(rng, wc, lo, 256):
+            ctx.count('pairs:one-field')
+            check_pair(ctx, wc, h, wc2, lo2.to_bytes(32, 'big'), (rng.choice(routes), rng.choice(routes)), 'one-field-' + label)
+        for _ in range(4):
+            ctx.count('pairs:same-two-routes')
+            check_pair(ctx, wc, h, wc, bytes(h), tuple(rng.sample(routes, 2)), 'two-routes')
 
 
 # ---------------------------------------------------------------- substitutions
@@ -523,6 +580,10 @@ def run(ctx):
     special_text_cases(ctx)
     if ctx.search and len(ctx.failures) > n0:
         return
+    # 0b. pairs that collide under a wrong packing width, one-field neighbours, one address through two routes
+    pair_cases(ctx)
+    if ctx.search and len(ctx.failures) > n0:
+        return
     # 1. all text forms of structured + random addresses
     addrs = list(addresses(ctx, ctx.n(400, 3000)))
     for wc, hp in addrs:
@@ -596,6 +657,7 @@ def replay(ctx, payload):
     elif k == 'subst':
         check_subst(ctx, inp['wc'], bytes.fromhex(inp['hash']), inp['url'], inp['b'], inp['t'], [inp['pos']])
     elif k == 'pair':
-        check_pair(ctx, inp['a'][0], bytes.fromhex(inp['a'][1]), inp['b'][0], bytes.fromhex(inp['b'][1]))
+        check_pair(ctx, inp['a'][0], bytes.fromhex(inp['a'][1]), inp['b'][0], bytes.fromhex(inp['b'][1]), tuple(inp.get('via') or ('tuple', 'tuple')),
+                   inp.get('class') or 'pair')
     elif k == 'text':
         check_text(ctx, inp['text'], 'replay')
